@@ -150,7 +150,7 @@ pub fn run(args: &Args) -> i32 {
         args,
         "history = random initial stored total (boundary-biased up to u128::MAX, pure flag byte 1 or any non-zero) followed by 24-48 ops drawn from {apply long, apply short, checked_apply_delta both / one side, cancel}; deltas biased to 0, +-1, exactly-empty+-1, exactly-full+-1, i128 limits. Same bytes and ops on the program Pool and the SDK Pool. Non-trivial = an op that succeeded with a non-zero delta, failed at a boundary, or cancelled a total > 1; distinct = hash(op kind, success, bit length of total before, sign/bit length of delta). A separate impure-pool strand compares cancel on both implementations.",
     );
-    let histories = args.scale(6_000, 250_000);
+    let histories = crate::util::scaled(args, 90_000, 1_200_000);
     let shards = 64u64;
     vcommon::monitor::run_shards(&mut mon, args.threads, shards, |shard, m| {
         let mut rng = Rng::derive(args.seed, shard, 15);
@@ -334,14 +334,14 @@ pub fn run(args: &Args) -> i32 {
             }
         }
     });
-    mon.require("histories", 1000);
-    mon.require("apply_long_ok", 1000);
-    mon.require("apply_short_ok", 1000);
-    mon.require("apply_both_ok", 500);
-    mon.require("cancel_ok", 1000);
-    mon.require("boundary_failures", 1000);
-    mon.require("sdk_views_equal", 10_000);
-    mon.require("reached_u128_max", 10);
+    crate::util::req(args, &mut mon, "histories", 1000);
+    crate::util::req(args, &mut mon, "apply_long_ok", 1000);
+    crate::util::req(args, &mut mon, "apply_short_ok", 1000);
+    crate::util::req(args, &mut mon, "apply_both_ok", 500);
+    crate::util::req(args, &mut mon, "cancel_ok", 1000);
+    crate::util::req(args, &mut mon, "boundary_failures", 1000);
+    crate::util::req(args, &mut mon, "sdk_views_equal", 10_000);
+    crate::util::req(args, &mut mon, "reached_u128_max", 10);
     mon.assume("a refusal is legitimate only when total+delta leaves 0..=u128::MAX (for the two-sided form: when the long leg alone or the sum leaves it)");
     mon.set_extra(
         "documented_differences",
